@@ -1734,6 +1734,8 @@ func (p *parser) domainTextLitEx(off, end token.Pos) *ast.DomainTextLitEx {
 	var args []ast.Expr
 	var sp parser
 	sp.initSub(file, src, int(off)-base, 0)
+	// report the sub-parser's errors (also when it bails out)
+	defer func() { p.errors = append(p.errors, sp.errors...) }()
 
 	for {
 		expr := sp.parseRHS()
